@@ -46,6 +46,29 @@ pub const K23: u8 = 23;
 #[derive(Clone, Debug, PartialEq)]
 pub struct UErr(pub u32, pub u32);
 
+/// Token type whose extern patterns carry 0, 1 or 2 bindings (C19).
+#[derive(Clone, Debug, PartialEq)]
+pub enum Tk {
+    A,
+    B(u32),
+    C(u32, String),
+    D { x: u32, y: u32 },
+    E(Box<Tk>),
+}
+
+/// Trait with an associated type for generic grammars (C19).
+pub trait Env {
+    type Out: Clone + std::fmt::Debug;
+    fn mk(&self, n: u32) -> Self::Out;
+}
+
+#[derive(Clone, Debug, PartialEq)]
+pub enum Expr {
+    Num(u32),
+    Add(Box<Expr>, Box<Expr>),
+    Neg(Box<Expr>),
+}
+
 /// A location type that is Clone but not Copy (C19).
 #[derive(Clone, Debug, Default, PartialEq)]
 pub struct CLoc(pub String);
